@@ -289,15 +289,20 @@ def has_noref(case):
     return False
 
 
-def run_sequence(ctx, cases, style_fn=None, timeout=600):
+def run_sequence(ctx, cases, style_fn=None, timeout=600, reuse_dirs=False):
     """All cases in ONE worker process, one call after the other (state carried between calls shows up as a difference
-    to the independent runs).  Returns impl outcomes in order."""
+    to the independent runs).  Returns impl outcomes in order.  reuse_dirs: a case equal to an earlier one of the sequence runs in
+    that earlier call's directory, on the very same files (same paths)."""
     wd = common.workdir()
-    items, dirs = [], []
+    items, dirs, seen = [], [], {}
     for c in cases:
+        key = json.dumps(c, sort_keys=True, ensure_ascii=False)
+        if reuse_dirs and key in seen:
+            items.append(dict(seen[key])); continue
         d = os.path.join(wd, 'seq%d_%d' % (id(cases) % 100000, len(items)))
         os.makedirs(d)
         items.append({'config': mapcase.materialise_files(c, d, style_fn(c) if style_fn else None), 'cwd': d})
+        seen[key] = items[-1]
         dirs.append(d)
     r = ctx.pool.map([{'fn': 'mat_seq', 'args': {'items': items}}], timeout=timeout, fresh=True)[0]
     for d in dirs:
